@@ -315,6 +315,10 @@ def simplify_inequality(
         lhs = simplify(sympify(lhs))
         rhs = simplify(sympify(rhs))
         assumption = simplify(Eq(lhs, rhs))
+        if isinstance(assumption, (BooleanTrue, BooleanFalse)):
+            # a trivial or a contradictory assumption cannot be used to eliminate anything.
+            continue
+
         left_expr = left_expr.subs(assumption.lhs, assumption.rhs)
         right_expr = right_expr.subs(assumption.lhs, assumption.rhs)
 
